@@ -1,7 +1,7 @@
 (* C16 — Store wrappers are transparent: prefix isolation, exact gas, faithful trace.
    Statements only; every proof is [exact <lemma>]. *)
 From Coq Require Import List NArith Bool.
-From PM Require Import Base.Bytes Store.KV Store.MergeProofs Store.KVProofs Store.DirtyProofs Store.WrapProofs.
+From PM Require Import Base.Bytes Store.KV Store.MergeProofs Store.KVProofs Store.DirtyProofs Store.WrapProofs Store.IterGas.
 Import ListNotations.
 Local Open Scope N_scope.
 
@@ -69,6 +69,33 @@ Theorem C16_prefix_iteration_is_the_prefixed_items pfx m asc w : pfx <> [] -> wf
              drain it = map (fun p => (strip pfx (fst p), snd p)) (dir asc (filter (fun p => has_prefix pfx (fst p)) m)).
 Proof. exact (prefix_iter_all pfx m asc w). Qed.
 
+(* iterator step gas (store/gaskv gasIterator): the complete  for ; Valid(); Next() { Key(); Value() }  loop over a gas
+   store returns exactly the in-range items in order and charges ReadCostPerByte*len(value) + IterNextCostFlat per
+   item, plus the first item's charge once more when the iterator is created; nothing else *)
+Theorem C16_gas_iteration_exact m st en asc w :
+  let l := kv_range m st en asc in
+  within w (w_consumed w + head_cost (w_cfg w) l + iter_cost (w_cfg w) l) ->
+  s_iter_all (Gas (Base m)) st en asc w =
+  (Ok l, Gas (Base m), set_consumed w (w_consumed w + head_cost (w_cfg w) l + iter_cost (w_cfg w) l)).
+Proof. exact (gas_store_iteration_exact m st en asc w). Qed.
+(* out-of-gas is raised at exactly the step whose charge crosses the limit: the items before it are charged in full
+   and returned to the loop body, the crossing step panics, and the reported total is past the limit but not past
+   that step's full charge *)
+Theorem C16_gas_iteration_out_of_gas_at_the_crossing l1 k v l2 w acc lim :
+  w_limit w = Some lim ->
+  w_consumed w + iter_cost (w_cfg w) l1 <= lim ->
+  lim < w_consumed w + iter_cost (w_cfg w) l1 + step_cost (w_cfg w) (k, v) ->
+  w_consumed w + iter_cost (w_cfg w) l1 + step_cost (w_cfg w) (k, v) <= max_u64 ->
+  exists w', it_collect (S (length (l1 ++ (k, v) :: l2))) (IGas (IList (l1 ++ (k, v) :: l2))) w acc
+             = (Panic POutOfGas, w') /\
+             lim < w_consumed w' /\
+             w_consumed w' <= w_consumed w + iter_cost (w_cfg w) l1 + step_cost (w_cfg w) (k, v).
+Proof. exact (gas_iteration_out_of_gas l1 k v l2 w acc lim). Qed.
+Example C16_ex_iter_gas :
+  let w := {| w_limit := Some 1000; w_consumed := 0; w_trace := []; w_cfg := kv_gas_config |} in
+  let '(r, _, w') := s_iter_all (Gas (Base [([1], [7; 7]); ([2], [8])])) [] None true w in
+  r = Ok [([1], [7; 7]); ([2], [8])] /\ w_consumed w' = 105.     (* (6+30) + (6+30) + (3+30) *)
+Proof. vm_compute. split; reflexivity. Qed.
 (* non-vacuity: the carry over 0xFF, and the all-0xFF prefix *)
 Example C16_ex_prefix_end :
   prefix_end_bytes [97; 255; 255] = Some [98] /\ prefix_end_bytes [255; 255] = None /\
@@ -87,3 +114,5 @@ Print Assumptions C16_gas_get_transparent.
 Print Assumptions C16_trace_get.
 Print Assumptions C16_gas_set_exact.
 Print Assumptions C16_prefix_iteration_is_the_prefixed_items.
+Print Assumptions C16_gas_iteration_exact.
+Print Assumptions C16_gas_iteration_out_of_gas_at_the_crossing.
